@@ -40,7 +40,7 @@ def tasks(tier):
     ts.append(("lists", 3))
     ts.append(("narrow",))
     ts.append(("extreme",))
-    ts.append(("long", 0)); ts.append(("long", 1))
+    ts.append(("long", 0)); ts.append(("long", 1)); ts.append(("long", 2))
     return ts
 
 
@@ -87,7 +87,7 @@ def run_task(task, acc):
     elif kind == "long":
         # long series: a de Bruijn sequence containing every length-4 window over the alphabet (x1 and x4 repeats)
         base = alpha.debruijn(SIGMA, 4)
-        x = base if task[1] == 0 else base * 4 + base[:7]
+        x = base if task[1] == 0 else (base * 4 + base[:7] if task[1] == 1 else alpha.xl(SIGMA))
         cases = (dict(x=list(x), suspect=s, fail=f, method=m) for m in METHODS for s in THR for f in THR)
         run_cases(acc, cases, check_case)
     elif kind == "narrow":
